@@ -169,6 +169,16 @@ func registerSyncStubs(w *World) {
 			return nil
 		}
 		ss := in.syncSt()
+		if xp, ok := x.V.(PtrV); ok && xp.R != nil {
+			for _, y := range ss.pools[st] {
+				if yp, ok := y.(IfaceV).V.(PtrV); ok && yp.R == xp.R {
+					// two later Gets (possibly on different goroutines) would receive the same object
+					if in.monitorOn {
+						in.Events = append(in.Events, Event{Kind: "sharedwrite", Msg: "object released to a sync.Pool twice: two later users share it", Where: in.where(), Stack: in.stackNames()})
+					}
+				}
+			}
+		}
 		// from now on the object belongs to whoever gets it next: a later store
 		// through a retained reference is a write to shared state
 		reOriginDeep(x, OrgCall, OrgPool, map[interface{}]bool{})
@@ -397,6 +407,52 @@ func registerSyncStubs(w *World) {
 		return nil
 	}
 
+	// ---- json.Encoder over an io.Writer: Marshal + newline, written with one Write ----
+	S["encoding/json.NewEncoder"] = func(in *Interp, fn *ssa.Function, a []Value) Value {
+		return PtrV{&Cell{V: &NativeV{Kind: "jsonenc", V: in.force(a[0])}, Org: in.org(), Nm: "json.Encoder"}}
+	}
+	for _, n := range []string{"SetEscapeHTML", "SetIndent"} {
+		S["(*encoding/json.Encoder)."+n] = func(in *Interp, fn *ssa.Function, a []Value) Value { return nil }
+	}
+	S["(*encoding/json.Encoder).Encode"] = func(in *Interp, fn *ssa.Function, a []Value) Value {
+		p, ok := a[0].(PtrV)
+		if !ok || p.R == nil {
+			in.goPanic("nil pointer dereference (json.Encoder)")
+		}
+		nv, ok := p.R.Load().(*NativeV)
+		if !ok || nv.Kind != "jsonenc" {
+			in.unsupported("json.Encoder not created by NewEncoder")
+		}
+		w := nv.V.(IfaceV)
+		res := in.W.Stubs["encoding/json.Marshal"](in, fn, []Value{a[1]}).(TupleV)
+		if e, _ := res[1].(IfaceV); e.T != nil {
+			return res[1]
+		}
+		sl := res[0].(SliceV)
+		if sl.Arr != nil && sl.Arr.Abs != nil {
+			in.unsupported("json.Encoder.Encode of symbolic content")
+		}
+		bt := types.NewSlice(types.Typ[types.Uint8])
+		out := in.appendOp(SliceV{}, sl, bt).(SliceV)
+		out = in.appendOp(out, SliceV{Arr: &ArrayV{Elems: []Value{IntC('\n')}}, Len: 1, Cap: 1}, bt).(SliceV)
+		if w.T == nil {
+			in.goPanic("nil io.Writer")
+		}
+		m := in.findMethod(w.T, "Write")
+		if m == nil {
+			in.unsupported("json.Encoder: writer without Write method")
+		}
+		r := in.CallFunction(m, []Value{copyValue(w.V), out}, nil)
+		if tv, ok := r.(TupleV); ok && len(tv) == 2 {
+			return tv[1]
+		}
+		return NilIface
+	}
+
+	S["reflect.DeepEqual"] = func(in *Interp, fn *ssa.Function, a []Value) Value {
+		return in.deepEqual(a[0], a[1], 0)
+	}
+
 	// ---- errors.As ----
 	S["errors.As"] = func(in *Interp, fn *ssa.Function, a []Value) Value {
 		err := in.force(a[0])
@@ -511,6 +567,13 @@ func registerSyncStubs(w *World) {
 	S["(*bytes.Buffer).Len"] = func(in *Interp, fn *ssa.Function, a []Value) Value {
 		return IntC(int64(len(in.syncSt().bufs[bufOf(in, a[0])])))
 	}
+	S["(*bytes.Buffer).Cap"] = func(in *Interp, fn *ssa.Function, a []Value) Value {
+		n := len(in.syncSt().bufs[bufOf(in, a[0])])
+		if n < 64 {
+			n = 64
+		}
+		return IntC(int64(n))
+	}
 	S["(*bytes.Buffer).Reset"] = func(in *Interp, fn *ssa.Function, a []Value) Value {
 		st := bufOf(in, a[0])
 		if st.Org != OrgCall && st.Org != OrgHarness {
@@ -550,6 +613,110 @@ func registerSyncStubs(w *World) {
 		}
 		return SliceV{Arr: &ArrayV{Elems: vals, Org: in.org(), ET: types.Typ[types.Uint8]}, Len: len(vals), Cap: len(vals)}
 	}
+}
+
+// deepEqual models reflect.DeepEqual on the value shapes the library handles
+// (interfaces holding scalars, strings, []any, map[string]any, pointers).
+func (in *Interp) deepEqual(a, b Value, depth int) *Term {
+	if depth > 12 {
+		in.unsupported("reflect.DeepEqual: nesting too deep")
+	}
+	if la, ok := a.(*LazyV); ok {
+		a = in.force(la)
+	}
+	if lb, ok := b.(*LazyV); ok {
+		b = in.force(lb)
+	}
+	switch x := a.(type) {
+	case IfaceV:
+		y, ok := b.(IfaceV)
+		if !ok {
+			return False
+		}
+		if x.T == nil || y.T == nil {
+			return BoolC(x.T == nil && y.T == nil)
+		}
+		if !types.Identical(x.T, y.T) {
+			return False
+		}
+		return in.deepEqual(x.V, y.V, depth+1)
+	case SliceV:
+		y, ok := b.(SliceV)
+		if !ok {
+			return False
+		}
+		if (x.Arr == nil) != (y.Arr == nil) {
+			return False // a nil slice and an empty slice are not deeply equal
+		}
+		if x.Len != y.Len {
+			return False
+		}
+		if x.Arr != nil && (x.Arr.Abs != nil || y.Arr.Abs != nil) {
+			in.unsupported("reflect.DeepEqual on abstract text")
+		}
+		r := True
+		for i := 0; i < x.Len; i++ {
+			r = And(r, in.deepEqual(x.Arr.Elems[x.Off+i], y.Arr.Elems[y.Off+i], depth+1))
+		}
+		return r
+	case *MapV:
+		y, ok := b.(*MapV)
+		if !ok {
+			return False
+		}
+		if (x == nil) != (y == nil) {
+			return False
+		}
+		if x == nil {
+			return True
+		}
+		in.forceDeep(x)
+		in.forceDeep(y)
+		if len(x.Keys) != len(y.Keys) {
+			return False
+		}
+		r := True
+		for i, k := range x.Keys {
+			found := False
+			for j, k2 := range y.Keys {
+				found = Or(found, And(in.valueEqual(k, k2), in.deepEqual(x.Vals[i], y.Vals[j], depth+1)))
+			}
+			r = And(r, found)
+		}
+		return r
+	case PtrV:
+		y, ok := b.(PtrV)
+		if !ok {
+			return False
+		}
+		if x.R == nil || y.R == nil {
+			return BoolC(x.R == nil && y.R == nil)
+		}
+		if x.R == y.R {
+			return True
+		}
+		return in.deepEqual(x.R.Load(), y.R.Load(), depth+1)
+	case *StructV:
+		y, ok := b.(*StructV)
+		if !ok || len(x.Fields) != len(y.Fields) {
+			return False
+		}
+		r := True
+		for i := range x.Fields {
+			r = And(r, in.deepEqual(x.Fields[i], y.Fields[i], depth+1))
+		}
+		return r
+	case *FloatV:
+		y, ok := b.(*FloatV)
+		if !ok {
+			return False
+		}
+		if x.Cls == FNaN || y.Cls == FNaN {
+			return False
+		}
+		return in.valueEqual(x, y)
+	}
+	return in.valueEqual(a, b)
 }
 
 // nativeTypeMatches compares a %T rendering ("*json.UnsupportedValueError")
